@@ -358,6 +358,11 @@ func (st *state) evaluate() *Result {
 		fpSuffix = st.evalQuiet(res, vio)
 	}
 
+	// ---- a talkative peer that never answers (family chatter) -----------
+	if st.sc.Kind == "chatter" {
+		fpSuffix = st.evalChatter(res, vio)
+	}
+
 	// ---- hypothesis 11 records ---------------------------------------------
 	for _, e := range st.log {
 		switch e.K {
